@@ -13,7 +13,7 @@ r0=$(cd /tmp && PYTHONPATH=/repo/src timeout 200 /venv/bin/python -B $wt/demo_*.
 r1=$(cd /tmp && PYTHONPATH=$wt/src timeout 200 /venv/bin/python -B $wt/demo_*.py >/dev/null 2>&1; echo $?)
 echo "demo: on /repo exit=$r0, on worktree exit=$r1"
 for c in $checks; do
-  out=$(PYSOMEIP_REPO=$wt ./check $c --tier quick 2>&1 | grep -E "VIOLATION|KNOWN|^\[" | head -3 | tr '\n' ' ')
+  out=$(PYSOMEIP_REPO=$wt ./check $c --tier quick 2>&1 | grep -E "VIOLATION|^\[" | head -4 | tr '\n' ' ')
   echo "check $c: $out"
 done
 mkdir -p ${MUTDIR:-/tmp/mut}/replays_$id; cp -r $ve/replays/* ${MUTDIR:-/tmp/mut}/replays_$id/ 2>/dev/null
